@@ -11,7 +11,7 @@ import types
 import z3
 
 from .core import (Ctx, Undecided, Sym, SInt, SBool, SStr, SSet, SSeq, Lit, IntLit, Val, Rep,
-                   SetLit, MSet, mkstr, has_sym, is_sym)
+                   SetLit, SeqLit, MSet, SSetStr, mkstr, has_sym, is_sym)
 
 # builtins that only look at the *structure* of their (concrete) container arguments and never
 # at the elements: safe to run natively even if elements are symbolic.
@@ -275,7 +275,7 @@ class Models(object):
             return container.__contains__(item)
         f = getattr(type(container), "__contains__", None)
         if isinstance(f, types.FunctionType) and self.interp.should_interpret(f):
-            return self.interp.call_real_function(f, [container, item], {})
+            return self.interp.call(f, [container, item], {})
         raise Undecided("membership of %r in %r" % (item, container))
 
     # ------------------------------------------------------------------ strings
@@ -291,7 +291,7 @@ class Models(object):
         tp = type(v)
         f = getattr(tp, "__str__", None)
         if isinstance(f, types.FunctionType) and self.interp.should_interpret(f):
-            return self.interp.call_real_function(f, [v], {})
+            return self.interp.call(f, [v], {})
         if has_sym(v):
             raise Undecided("str of container with symbolic members")
         return str(v)
@@ -417,6 +417,8 @@ class Models(object):
                     conds.append(a.seq.length > 1)
             elif isinstance(a, SetLit):
                 conds.append(a.sset.card > 0)
+            elif isinstance(a, SeqLit):
+                conds.append(a.seq.length > 0)
         return self.ctx.branch(z3.Or(*conds) if conds else z3.BoolVal(False), label)
 
     def str_len(self, s):
@@ -595,6 +597,8 @@ class Models(object):
         """str method where self and/or arguments may be symbolic."""
         s = mkstr(s)
         args = [mkstr(a) for a in args]
+        if name == "join" and args and not isinstance(args[0], (list, tuple, SSeq, SSetStr, str, SStr, dict, set, frozenset)):
+            args[0] = list(self.interp.iterate(args[0]))      # materialise iterators (map objects, generators)
         if isinstance(s, str) and not has_sym(args) and not has_sym(kwargs):
             return getattr(s, name)(*args, **kwargs)
         ctx = self.ctx
@@ -733,6 +737,10 @@ class Models(object):
     def str_join(self, sep, items):
         if isinstance(sep, SStr):
             raise Undecided("symbolic join separator")
+        if isinstance(items, SSetStr):
+            # join of a set of symbolic strings: an unconstrained string (sound over-approximation)
+            v = self.ctx.fresh_str("joined")
+            return SStr([Val(v, tag="join-of-set")])
         if isinstance(items, SSeq):
             # join over an abstract sequence: only constant patterns / int renderings are supported
             e = items.elem
@@ -740,6 +748,8 @@ class Models(object):
                 return SStr([Rep(items.elem, sep, items)])
             if items.kind == "setstr":
                 return SStr([SetLit(e, sep)])
+            if items.kind == "intstr":
+                return SStr([SeqLit(items.elem, sep)])
             raise Undecided("join over abstract sequence of kind %s" % items.kind)
         items = list(self.interp.iterate(items))
         parts = []
@@ -844,7 +854,7 @@ class Models(object):
             return obj[idx]
         f = getattr(type(obj), "__getitem__", None)
         if isinstance(f, types.FunctionType) and self.interp.should_interpret(f):
-            return self.interp.call_real_function(f, [obj, idx], {})
+            return self.interp.call(f, [obj, idx], {})
         raise Undecided("getitem %r[%r]" % (obj, idx))
 
     def setitem(self, obj, idx, value):
@@ -853,7 +863,7 @@ class Models(object):
             return
         f = getattr(type(obj), "__setitem__", None)
         if isinstance(f, types.FunctionType) and self.interp.should_interpret(f):
-            return self.interp.call_real_function(f, [obj, idx, value], {})
+            return self.interp.call(f, [obj, idx, value], {})
         raise Undecided("setitem with symbolic key")
 
     def unpack_sym(self, v, n):
@@ -892,6 +902,28 @@ class Models(object):
                 and isinstance(node.elt, ast.Constant) and isinstance(node.elt.value, str):
             self._comp_abstract = SSeq(it.length, node.elt.value, name="const(%s)" % it.name, kind="const")
             return True
+        # [g(x) for x in <abstract sequence>] with an int-valued g  ->  abstract sequence (pointwise rule)
+        if isinstance(it, SSeq) and it.kind not in ("setlist",) and len(gens) == 1 and not g.ifs \
+                and isinstance(node, (ast.ListComp, ast.GeneratorExp)) and isinstance(g.target, ast.Name):
+            from .interp import Env
+            ctx = self.ctx
+            i0 = ctx.fresh_int("j")
+            if not ctx.branch(it.length > 0, "comp-nonempty"):
+                self._comp_abstract = []
+                return True
+            ctx.assume(z3.And(i0 >= 0, i0 < it.length))
+            inner = Env({g.target.id}, env, env.globals, func=env.func)
+            inner.vars[g.target.id] = it.elem(i0)
+            v = self.interp.eval(node.elt, inner)
+            if isinstance(v, int) and not isinstance(v, bool):
+                v = SInt(z3.IntVal(v))
+            if isinstance(v, SInt):
+                e = v.e
+                self.used("pointwise-comprehension-rule(map over abstract sequence)")
+                self._comp_abstract = SSeq(it.length, lambda j, e=e, i0=i0: SInt(z3.substitute(e, (i0, j if isinstance(j, z3.ExprRef) else z3.IntVal(j)))),
+                                           name="map(%s)" % it.name, kind="map-int")
+                return True
+            raise Undecided("comprehension over an abstract sequence with a non-integer element expression")
         # [x for x in <abstract int collection> if cond(x)]  ->  filtered abstract collection
         base = _as_sset(it)
         if base is not None and len(gens) == 1 and isinstance(node, (ast.ListComp, ast.GeneratorExp)) \
@@ -1005,6 +1037,10 @@ class Models(object):
             return self.str_len(x)
         if isinstance(x, SSet):
             return SInt(x.card)
+        if isinstance(x, SSetStr):
+            n = self.ctx.fresh_int("card")
+            self.ctx.assume(z3.And(n >= (1 if x.items else 0), n <= len(x.items)))
+            return SInt(n)
         if isinstance(x, SSeq):
             return SInt(x.length)
         if isinstance(x, MSet) and x.ranges:
@@ -1021,7 +1057,7 @@ class Models(object):
             return len(x)
         f = getattr(type(x), "__len__", None)
         if isinstance(f, types.FunctionType) and self.interp.should_interpret(f):
-            return self.interp.len_value(self.interp.call_real_function(f, [x], {}))
+            return self.interp.len_value(self.interp.call(f, [x], {}))
         return len(x)
 
     def b_int(self, x=0, base=None):
@@ -1100,6 +1136,8 @@ class Models(object):
         if len(its) == 1 and fn is builtins.str and _as_sset(its[0]) is not None:
             ss = _as_sset(its[0])
             return SSeq(ss.card, ss, name="map(str,%s)" % ss.name, kind="setstr")
+        if len(its) == 1 and isinstance(its[0], SSeq) and its[0].kind == "map-int" and fn is builtins.str:
+            return SSeq(its[0].length, its[0], name="map(str,%s)" % its[0].name, kind="intstr")
         if len(its) == 1 and isinstance(its[0], SSeq):
             raise Undecided("map over abstract sequence")
         lists = [list(self.interp.iterate(i)) for i in its]
@@ -1169,6 +1207,9 @@ class Models(object):
             return m
         items = list(self.interp.iterate(it))
         if has_sym(items, 1):
+            if all(isinstance(x, (str, SStr)) for x in items):
+                self.used("set-of-symbolic-strings (order/cardinality abstracted)")
+                return SSetStr(items)
             raise Undecided("set() of symbolic members")
         return MSet(items)
 
@@ -1203,7 +1244,7 @@ class Models(object):
             f = getattr(type(a0), "keys", None)
             if f is not None and isinstance(f, types.FunctionType) and self.interp.should_interpret(f):
                 d = {}
-                for k in self.interp.iterate(self.interp.call_real_function(f, [a0], {})):
+                for k in self.interp.iterate(self.interp.call(f, [a0], {})):
                     d[k] = self.interp.getitem(a0, k)
                 d.update(kw)
                 return d
@@ -1223,7 +1264,7 @@ class Models(object):
             raise Undecided("hash of symbolic value")
         f = getattr(type(x), "__hash__", None)
         if isinstance(f, types.FunctionType) and self.interp.should_interpret(f):
-            return self.interp.call_real_function(f, [x], {})
+            return self.interp.call(f, [x], {})
         return hash(x)
 
 
@@ -1334,6 +1375,10 @@ def _allowed_fn(a):
     if isinstance(a, Rep):
         def f(ch, where, a=a):
             return ch in a.pattern or ch in a.sep
+        return f
+    if isinstance(a, SeqLit):
+        def f(ch, where, a=a):
+            return (ch.isdigit() and ch.isascii()) or ch == "-" or ch in a.sep
         return f
     return None
 
